@@ -14,11 +14,11 @@ shutil.copy(demo, wt + '/demo_seed.py')
 res = {}
 try:
     d0 = run('%s timeout 900 /venv/bin/python demo_seed.py' % env)
-    t0 = run('%s timeout 3000 /venv/bin/python -m pytest -q -p no:cacheprovider --continue-on-collection-errors -W 'ignore:CUDA initialization:UserWarning' -n 6 %s 2>&1 | grep -E "^(FAILED|ERROR)" | sort' % (env, ' '.join(tests))) if tests else None
+    t0 = run('%s timeout 3000 /venv/bin/python -m pytest -q -p no:cacheprovider --continue-on-collection-errors -W ignore:CUDA:UserWarning -n 6 %s 2>&1 | grep -E "^(FAILED|ERROR)" | sort' % (env, ' '.join(tests))) if tests else None
     a = run('git -C %s apply %s' % (wt, os.path.abspath(patch)))
     assert a.returncode == 0, 'patch does not apply: ' + a.stderr
     d1 = run('%s timeout 900 /venv/bin/python demo_seed.py' % env)
-    t1 = run('%s timeout 3000 /venv/bin/python -m pytest -q -p no:cacheprovider --continue-on-collection-errors -W 'ignore:CUDA initialization:UserWarning' -n 6 %s 2>&1 | grep -E "^(FAILED|ERROR)" | sort' % (env, ' '.join(tests))) if tests else None
+    t1 = run('%s timeout 3000 /venv/bin/python -m pytest -q -p no:cacheprovider --continue-on-collection-errors -W ignore:CUDA:UserWarning -n 6 %s 2>&1 | grep -E "^(FAILED|ERROR)" | sort' % (env, ' '.join(tests))) if tests else None
     res['demo_without'] = (d0.returncode, d0.stdout.strip()[-300:])
     res['demo_with'] = (d1.returncode, d1.stdout.strip()[-600:])
     res['tests_same_failures'] = (t0.stdout == t1.stdout) if tests else None
